@@ -12,7 +12,7 @@ LABEL_POOL = [
     'q"\n"r', "é", "日本語", "𝄞 clef", "tab\tinside", "a!b", "! bang", "<exists>", "semi;colon", "back\\slash", "x" * 300, "a  b", "%d %s",
     "e\u0301tude", "\u212bngstr\u00f6m", "\u1112\u1161\u11ab", "a\u0303o \u00e3o", "\ufb01n", "1e-05", "xmin", "text", "mark", "number", "size = 3", "null\x00byte", "-", "--", "0", "None", "false", "[]", "_",
     "vt\x0btab", "form\x0cfeed", "nel\x85here", "ls\u2028sep", "ps\u2029sep", "fs\x1cgs\x1drs\x1e",  # what str.splitlines() splits on, besides \n
-    "step size = 0.25", "window size=0", "size = 0", "\ufeff", "mid\ufeffbom", "\ufefflead", "100% sure", "50%% creaky", "{laugh}", "a}b", "{",
+    "step size = 0.25", "window size=0", "size = 0", 'say \\"hi\\"', 'end\\"', '\\""', "tab\\t", "\ufeff", "mid\ufeffbom", "\ufefflead", "100% sure", "50%% creaky", "{laugh}", "a}b", "{",
     "[noise], [laugh]", '"a": [1, 2], "b"', "}, {", "\\n not a newline", "\\u00e9", "ooTextFile", "says ooTextFile here", "File type",
 ]
 WS_LABELS = [" ", "  \t", "\n", " pad ", "\nlead", "trail \n", "\t a  b \t", " \u00e9 ", "\u00a0nb", "wide\u3000", "\x1funit", "em\u2003", "\x85nel", "\tindented"]  # surrounding / only white space (file-level data; tiers store labels stripped)
